@@ -140,8 +140,18 @@ theorem conjectured_no_underflow {o : Options} {bits n : Nat} (cr : Nat) (ho : o
     (show Admissible o bits n from ⟨ho, by unfold U32; omega, by unfold USIZE; omega, hn, by omega⟩)
   exact ⟨l, hl'⟩
 
-/-- proofs are read from bytes without the `Context::new` guard: a trace length of 2^62 with the
-    62-bit field is outside the admissible range and the estimate panics (u32 underflow) -/
+/-- in terms of the model's `contextAccepted` (the guard of `Context::new` and, since /repo commit
+    0d65c7b, of `Context::read_from`): every context that can exist over a field of 32..2040 bits has a
+    conjectured level -/
+theorem conjectured_defined_on_contexts {o : Options} {bits n : Nat} (cr : Nat) (ho : o.accepted = true)
+    (hn : 0 < n) (hc : contextAccepted o n = true) (hb1 : 32 ≤ bits) (hb2 : bits ≤ 2040) :
+    ∃ l, conjectured o bits n cr = .ok l := by
+  unfold contextAccepted at hc
+  simp only [Bool.and_eq_true, decide_eq_true_eq] at hc
+  exact conjectured_no_underflow cr ho hn hc.2 hb1 hb2
+
+/-- the guard is needed: outside it (a trace length of 2^62 with the 62-bit field, which the original
+    `Context::read_from` let through) the estimate panics (u32 underflow) -/
 theorem conjectured_underflow_witness :
     conjectured ⟨1, 2, 0, .none, 2, 0⟩ 62 (2 ^ 62) 128 = .panic "u32-sub-overflow" := by decide
 
@@ -274,13 +284,21 @@ theorem verifyTop_refuses_foreign_options (s : List Options) (v : VerifierSide) 
   rw [verifyTop_policy_first _ v p h (by rw [hpol]; simp), hpol]
 
 /-- control reaches `perform_verification` only for a proof over the AIR's field that passed the
-    policy -/
+    policy and asks for fewer queries than the LDE domain has points -/
 theorem verifyTop_pass_imp (a : Acceptable) (v : VerifierSide) (p : ProofHead)
-    (h : verifyTop a v p = .pass) : v.modulusBytes = p.modulusBytes ∧ policyCheck a v p = .pass := by
+    (h : verifyTop a v p = .pass) :
+    v.modulusBytes = p.modulusBytes ∧ policyCheck a v p = .pass ∧
+      p.options.numQueries < p.traceLen * p.options.blowup := by
   by_cases hm : v.modulusBytes = p.modulusBytes
   · refine ⟨hm, ?_⟩
     by_cases hp : policyCheck a v p = .pass
-    · exact hp
+    · refine ⟨hp, ?_⟩
+      unfold verifyTop fieldCheck queriesCheck at h
+      have : (v.modulusBytes != p.modulusBytes) = false := by simp [hm]
+      simp only [this, hp, seqOut] at h
+      by_cases hq : p.traceLen * p.options.blowup ≤ p.options.numQueries
+      · simp [hq] at h
+      · omega
     · rw [verifyTop_policy_first a v p hm hp] at h; exact absurd h hp
   · rw [verifyTop_field_mismatch a v p hm] at h; cases h
 
